@@ -26,6 +26,18 @@ def scenarios(ctx, thorough):
     scs.append(S.mk(sid, "ack-mix", "order", [{"a": "Probe", "tag": 90}, {"a": "Push", "what": "update_short"}, {"a": "Push", "what": "pong"},
                {"a": "Push", "what": "new_session"}, {"a": "Push", "what": "msgs_ack"}, S.call("c1", 11), S.call("c2", 12),
                {"a": "Answer", "tags": [11, 12], "container": True}, {"a": "Push", "what": "api_object"}, {"a": "Drain"}, {"a": "Settle"}]))
+    # a clock that stands still, or is set back: ids must still strictly increase in write order
+    for clock in ("frozen", "stepback"):
+        for n in (1, 4):
+            sid += 1
+            cs = ["c%d" % i for i in range(1, n + 1)]
+            steps = [{"a": "Probe", "tag": 90}, {"a": "Probe", "tag": 91}] + [S.call(c, 10 + i) for i, c in enumerate(cs)] + \
+                    [{"a": "Answer", "tags": [10 + i for i in range(n)], "container": n > 1, "n": 400}, {"a": "Drain"}] + \
+                    [{"a": "Probe", "tag": 92 + k} for k in range(6)] + [{"a": "Settle"}]
+            scs.append(S.mk(sid, "clock-%s-%d" % (clock, n), "order", steps, clock=clock))
+        sid += 1
+        scs.append(S.mk(sid, "clock-%s-random" % clock, "order", mode="random", callers=6, calls=3, rotate=0, kinds=["object"],
+                        gates=["send.genid"], seed=ctx.seed * 1000 + 700 + sid, clock=clock))
     # results nobody waits for are content-related messages too: alone and inside containers
     sid += 1
     scs.append(S.mk(sid, "ack-unsolicited", "order", [{"a": "Probe", "tag": 90}, {"a": "Push", "what": "unsolicited_result"}, {"a": "Probe", "tag": 91},
